@@ -215,7 +215,8 @@ theorem mergeLoop_ref_eq (C : Crypto) (bs : Array Bytes) (m : Nat) :
           = (((rootsStack (m + 1)).map (liftN k)).map (fun p => nodeAt C bs p.1 p.2), added ++ rn, iat top.1 top.2)
         ∧ (∀ n ∈ added, ∃ d o, n = nodeAt C bs d o ∧ (o + 1) * 2 ^ d = (m + 1) * 2 ^ k ∧ k < d)
         ∧ ((rootsStack (m + 1)).map (liftN k)).head? = some top
-        ∧ (∀ d o, k < d → (o + 1) * 2 ^ d = (m + 1) * 2 ^ k → nodeAt C bs d o ∈ added) := by
+        ∧ (∀ d o, k < d → (o + 1) * 2 ^ d = (m + 1) * 2 ^ k → nodeAt C bs d o ∈ added)
+        ∧ (∀ (a b : List Node) (x : Node), added = a ++ x :: b → ∀ y ∈ a, ∃ dx ox dy oy, x = nodeAt C bs dx ox ∧ y = nodeAt C bs dy oy ∧ dx < dy) := by
   induction m using Nat.strongRecOn with
   | _ m ih =>
     intro k fuel rn hf
@@ -224,12 +225,13 @@ theorem mergeLoop_ref_eq (C : Crypto) (bs : Array Bytes) (m : Nat) :
     · subst hm0
       have h1 : rootsStack 1 = [(0, 0)] := by
         rw [rootsStack_odd 1 (by decide)]; simp [rootsStack_zero]
-      refine ⟨[], (k, 0), ?_, by simp, ?_, ?_⟩
+      refine ⟨[], (k, 0), ?_, by simp, ?_, ?_, ?_⟩
       · simp [rootsStack_zero, h1, mergeLoop, liftN]
       · simp [h1, liftN]
       · intro d o hd h
         have := carry_even k d o 0 hd h
         omega
+      · intro a b x hsplit; simp at hsplit
     by_cases hev : m % 2 = 0
     · -- m even: the previous top root is deeper; nothing merges
       have e1 := rootsStack_even m hm0 hev
@@ -237,7 +239,7 @@ theorem mergeLoop_ref_eq (C : Crypto) (bs : Array Bytes) (m : Nat) :
         rw [rootsStack_odd (m + 1) (by omega)]
         have : (m + 1) / 2 = m / 2 := by omega
         simp [this]
-      refine ⟨[], (k, m), ?_, by simp, ?_, ?_⟩
+      refine ⟨[], (k, m), ?_, by simp, ?_, ?_, (by intro a b x hsplit; simp at hsplit)⟩
       · rw [e2, e1]
         simp only [List.map_cons, liftN, Nat.zero_add, List.nil_append]
         cases hl : (rootsStack (m / 2)).map lift with
@@ -278,9 +280,21 @@ theorem mergeLoop_ref_eq (C : Crypto) (bs : Array Bytes) (m : Nat) :
       have hh : (m + 1) / 2 = m / 2 + 1 := by omega
       have hlen : (rootsStack (m / 2)).length < fuel := by
         rw [e1] at hf; simp at hf; omega
-      obtain ⟨added, top, hrec, hadd, htop, hcomp⟩ := ih (m / 2) (by omega) (k + 1) fuel
+      obtain ⟨added, top, hrec, hadd, htop, hcomp, hsorted⟩ := ih (m / 2) (by omega) (k + 1) fuel
         (nodeAt C bs (k + 1) (m / 2) :: rn) hlen
-      refine ⟨added ++ [nodeAt C bs (k + 1) (m / 2)], top, ?_, ?_, ?_, ?_⟩
+      refine ⟨added ++ [nodeAt C bs (k + 1) (m / 2)], top, ?_, ?_, ?_, ?_, ?_⟩
+      rotate_right
+      · intro a b x hsplit y hy
+        rcases List.eq_nil_or_concat b with rfl | ⟨b', z, rfl⟩
+        · obtain ⟨ha, hx⟩ := List.append_inj' hsplit rfl
+          subst ha
+          have hx' : x = nodeAt C bs (k + 1) (m / 2) := by simpa using hx.symm
+          obtain ⟨d, o, rfl, _, hd⟩ := hadd y hy
+          exact ⟨k + 1, m / 2, d, o, hx', rfl, hd⟩
+        · have e : added ++ [nodeAt C bs (k + 1) (m / 2)] = (a ++ x :: b') ++ [z] := by
+            rw [hsplit]; simp [List.append_assoc]
+          obtain ⟨h1, _⟩ := List.append_inj' e rfl
+          exact hsorted a b' x h1 y hy
       · rw [e1]
         simp only [List.map_cons, liftN, Nat.zero_add]
         have hidx : (iat k m).sibling.index = (nodeAt C bs k (m - 1)).index := by
@@ -333,7 +347,7 @@ theorem mergeLoop_ref (C : Crypto) (bs : Array Bytes) (m : Nat) :
         ∧ ((rootsStack (m + 1)).map (liftN k)).head? = some top
         ∧ (∀ d o, k < d → (o + 1) * 2 ^ d = (m + 1) * 2 ^ k → nodeAt C bs d o ∈ added) := by
   intro k fuel rn hf
-  obtain ⟨added, top, h1, h2, h3, h4⟩ := mergeLoop_ref_eq C bs m k fuel rn hf
+  obtain ⟨added, top, h1, h2, h3, h4, _⟩ := mergeLoop_ref_eq C bs m k fuel rn hf
   exact ⟨added, top, h1, fun n hn => by obtain ⟨d, o, e, hb, hd⟩ := h2 n hn; exact ⟨d, o, e, Nat.le_of_eq hb, hd⟩, h3, h4⟩
 
 end HC.RefProof
